@@ -23,13 +23,16 @@ EXTENDS Integers, Sequences, FiniteSets, TLC
 CONSTANTS MaxChildren,     \* commands alive at once
           MaxTemps,        \* temp files existing at once
           QMax,            \* bound on the renderer's queue (model bound only)
-          MaxPending       \* bound on simultaneously pending exit requests (model bound only)
+          MaxPending,      \* bound on simultaneously pending exit requests (model bound only)
+          CfgSet,          \* option combinations explored: a subset of Cfgs
+          Hows             \* ways of exiting explored: a subset of ExitHows
 
 Tracked == {"alt", "m1000", "m1002", "m1006", "paste"}          \* modes fzf sets for the whole session
 Modes == Tracked \cup {"cursor", "wrap"}                          \* + modes toggled around every write
 Kinds == {"preview", "reload", "execute", "silent"}
 Signals == {"SIGINT", "SIGTERM"}                                  \* the signals fzf handles (signal.Notify in Terminal.Loop)
-ExitHows == {"accept", "abort", "print-query", "become", "error"} \cup Signals
+ExitHows == {"accept", "abort", "print-query", "become", "error", "key"} \cup Signals
+     \* "key": typed bytes that made fzf exit, accept or abort (the robustness driver does not interpret them)
 Phases == {"start", "running", "fg", "bg", "bgpaused", "stopped", "exited"}
 Executing == {"fg", "bg", "bgpaused"}
 
@@ -71,22 +74,24 @@ RestoredScr(s, c) == s = InitScr \/ (c.full /\ ~c.clear /\ s = [InitScr EXCEPT !
 AllowedStatus(h) == CASE h \in {"accept", "print-query"} -> {0, 1}
                       [] h \in {"abort"} \cup Signals -> {130}
                       [] h = "error" -> {2}
+                      [] h = "key" -> {0, 1, 130}
                       [] OTHER -> 0..255                        \* become: the status of the command
 
 VARIABLES cfg, phase, tio, scr, queued, mouseOn, showCursor, listener, children, temps, pending, how, dev,
           out          \* tracked mode changes written by the last step, in order (what a terminal would have received)
 vars == <<cfg, phase, tio, scr, queued, mouseOn, showCursor, listener, children, temps, pending, how, dev, out>>
+NoOut == <<cfg, phase, tio, scr, queued, mouseOn, showCursor, listener, children, temps, pending, how, dev>>   \* VIEW of the safety configurations
 
 TempIds == 1..MaxTemps
 TypeOK == /\ cfg \in Cfgs /\ phase \in Phases /\ tio \in {"cooked", "raw"} /\ DOMAIN scr = DOMAIN InitScr
           /\ mouseOn \in BOOLEAN /\ showCursor \in BOOLEAN /\ listener \in BOOLEAN
           /\ children \subseteq Kinds /\ temps \subseteq [id : TempIds, owner : Kinds]
-          /\ pending \subseteq ExitHows /\ how \in ExitHows \cup {"none"} /\ dev \subseteq {"PreviewLeft"}
+          /\ pending \subseteq ExitHows /\ how \in ExitHows \cup {"none"} /\ dev \subseteq {"PreviewLeft", "ReloadTempsLeft"}
 
 StartState(c) == /\ cfg = c /\ phase = "start" /\ tio = "cooked" /\ scr = InitScr /\ queued = <<>> /\ mouseOn = FALSE
                  /\ showCursor = TRUE /\ listener = c.listen /\ children = {} /\ temps = {} /\ pending = {}
                  /\ how = "none" /\ dev = {} /\ out = <<>>
-Init == \E c \in Cfgs : StartState(c)
+Init == \E c \in CfgSet : StartState(c)
 
 Write(ops) == scr' = ApplyOps(scr, ops) /\ out' = TrackedOf(ops)
 
@@ -101,10 +106,6 @@ RInit == /\ phase = "start" /\ phase' = "running" /\ tio' = "raw"
 Flush == /\ phase = "running" /\ queued # <<>>
          /\ Write(FlushOps(queued, showCursor)) /\ queued' = <<>>
          /\ UNCHANGED <<cfg, phase, tio, mouseOn, showCursor, listener, children, temps, pending, how, dev>>
-
-Paint == /\ phase = "running" /\ queued = <<>>
-         /\ queued' = Append(queued, Draw) /\ out' = <<>>
-         /\ UNCHANGED <<cfg, phase, tio, scr, mouseOn, showCursor, listener, children, temps, pending, how, dev>>
 
 ToggleCursor == /\ phase = "running" /\ Len(queued) < QMax          \* hide-input / show-input / --no-input
                 /\ \A i \in 1..Len(queued) : queued[i].m # "cursor"  \* (model bound: one pending toggle)
@@ -175,33 +176,39 @@ RequestExit(h) == /\ phase # "exited" /\ h \in ExitHows
                   /\ UNCHANGED <<cfg, phase, tio, scr, queued, mouseOn, showCursor, listener, children, temps, how, dev>>
 
 (* ExitVia(h): performed by the render loop as soon as no command owns the terminal (uiMutex): Close() the          *)
-(* renderer, close the listener, kill what is running, remove what was created.  `left` = kinds that survive:       *)
-(* {} is the required design.                                                                                       *)
-Exit(h, left) ==
+(* renderer, close the listener, kill what is running, remove what was created.  `left` = kinds that survive,      *)
+(* `files` = kinds whose temp files stay although the command is killed: both {} in the required design.            *)
+Exit(h, left, files) ==
     /\ h \in pending /\ phase \in {"start", "running"} /\ phase' = "exited" /\ how' = h
     /\ IF phase = "start" THEN out' = <<>> /\ UNCHANGED <<scr, queued, tio>>
        ELSE Write(CloseWritten(cfg, queued, mouseOn, showCursor)) /\ queued' = <<>> /\ tio' = "cooked"
     /\ listener' = FALSE
     /\ children' = children \cap left
-    /\ temps' = {t \in temps : t.owner \in children \cap left}
+    /\ temps' = {t \in temps : t.owner \in children \cap (left \cup files)}
     /\ UNCHANGED <<cfg, mouseOn, showCursor, pending>>
-ExitVia(h) == Exit(h, {}) /\ UNCHANGED dev
+ExitVia(h) == Exit(h, {}, {}) /\ UNCHANGED dev
 
 (* Deviation (known finding): a preview command still running at exit is neither killed nor are its temp files      *)
 (* removed (killPreview is a non-blocking send after EvtQuit; the process exits first).                             *)
-ExitLeavingPreview(h) == "preview" \in children /\ Exit(h, {"preview"}) /\ dev' = dev \cup {"PreviewLeft"}
+ExitLeavingPreview(h) == /\ "preview" \in children /\ dev' = dev \cup {"PreviewLeft"}
+                         /\ \E left \in SUBSET {"preview"} : Exit(h, left, {"preview"})     \* (the kill sometimes wins; the files stay)
+(* Deviation (finding): the reload command running at exit is killed, but the temp files of its placeholders stay    *)
+(* (removeFiles runs in the reader goroutine after the kill; the process exits first).                              *)
+ExitLeavingReloadTemps(h) == /\ \E t \in temps : t.owner = "reload" /\ "reload" \in children
+                             /\ \/ Exit(h, {}, {"reload"}) /\ dev' = dev \cup {"ReloadTempsLeft"}
+                                \/ "preview" \in children /\ Exit(h, {"preview"}, {"reload"}) /\ dev' = dev \cup {"PreviewLeft", "ReloadTempsLeft"}
 
 TempCounts == 0..2
-Design == \/ RInit \/ Flush \/ Paint \/ ToggleCursor \/ BgPause \/ Suspend \/ Continue
+Design == \/ RInit \/ Flush \/ ToggleCursor \/ BgPause \/ Suspend \/ Continue
           \/ \E k \in Kinds, n \in TempCounts : StartChild(k, n)
           \/ \E k \in Kinds : ChildExit(k)
           \/ \E t \in temps : RemoveTemp(t)
-          \/ \E h \in ExitHows : RequestExit(h) \/ ExitVia(h)
-Next == Design \/ \E h \in ExitHows : ExitLeavingPreview(h)
+          \/ \E h \in Hows : RequestExit(h) \/ ExitVia(h)
+Next == Design \/ \E h \in Hows : ExitLeavingPreview(h) \/ ExitLeavingReloadTemps(h)
 
 (* the environment eventually ends a command that owns the terminal, and continues a stopped fzf; the render loop  *)
 (* gets its turn between two commands (strong fairness: a command started in between only postpones the exit)       *)
-Fairness == /\ SF_vars(\E h \in ExitHows : ExitVia(h)) /\ WF_vars(ChildExit("execute")) /\ WF_vars(ChildExit("silent"))
+Fairness == /\ SF_vars(\E h \in Hows : ExitVia(h)) /\ WF_vars(ChildExit("execute")) /\ WF_vars(ChildExit("silent"))
             /\ WF_vars(Continue) /\ WF_vars(RInit)
 Spec == Init /\ [][Design]_vars /\ Fairness
 SpecDev == Init /\ [][Next]_vars
@@ -212,10 +219,11 @@ Clean == /\ RestoredScr(scr, cfg) /\ tio = "cooked" /\ ~listener /\ children = {
 Restored == phase = "exited" /\ dev = {} => Clean
 (* the known deviation leaves exactly the preview command and its own files, nothing else *)
 DevBounded == phase = "exited" /\ dev # {} =>
-                 /\ RestoredScr(scr, cfg) /\ tio = "cooked" /\ ~listener /\ children = {"preview"}
-                 /\ \A t \in temps : t.owner = "preview"
+                 /\ RestoredScr(scr, cfg) /\ tio = "cooked" /\ ~listener
+                 /\ children \subseteq (IF "PreviewLeft" \in dev THEN {"preview"} ELSE {})
+                 /\ \A t \in temps : (t.owner = "preview" /\ "PreviewLeft" \in dev) \/ (t.owner = "reload" /\ "ReloadTempsLeft" \in dev)
 (* exit-at-any-moment: in every state before the end every way of exiting can be asked for *)
-ExitAlwaysPossible == phase # "exited" => \A h \in ExitHows : ENABLED RequestExit(h)
+ExitAlwaysPossible == phase # "exited" => \A h \in Hows : ENABLED RequestExit(h)
 (* a command that owns the terminal finds it usable: cooked, no mouse reports / paste brackets, its own screen *)
 CommandOwnsTerminal == phase = "fg" => /\ tio = "cooked" /\ ~scr.paste /\ ~scr.m1000 /\ ~scr.m1002 /\ ~scr.m1006
                                        /\ scr.alt = ~cfg.full /\ scr.wrap
